@@ -81,7 +81,7 @@ func TestC04Rapid(t *testing.T) {
 				onlyInvalidOrUnknown = append(onlyInvalidOrUnknown, q)
 			}
 		}
-		n := rapid.IntRange(1, 8).Draw(t, "nReq")
+		n := rapid.SampledFrom([]int{0, 1, 1, 2, 2, 3, 4, 5, 6, 8}).Draw(t, "nReq") // also the empty request
 		var req []string
 		classes := map[string]bool{}
 		for i := 0; i < n; i++ {
@@ -127,7 +127,7 @@ func TestC04Rapid(t *testing.T) {
 		fail := func(msg string) {
 			t.Fatalf("C04 violated: %s\nrequest: %q\nreturned: %q, %v\nlayout: %s", msg, reqCopy, unresolved, ierr, canonJSON(l.Describe()))
 		}
-		if !reflect.DeepEqual(req, reqCopy) {
+		if !reflect.DeepEqual(req, reqCopy) && !(len(req) == 0 && len(reqCopy) == 0) {
 			fail("the request slice was modified")
 		}
 		if stale && !nilSpec && !reflect.DeepEqual(want, wantOld) {
@@ -143,7 +143,7 @@ func TestC04Rapid(t *testing.T) {
 			if ierr == nil {
 				fail("nil OCI spec accepted")
 			}
-			if !reflect.DeepEqual(unresolved, reqCopy) {
+			if !reflect.DeepEqual(unresolved, reqCopy) && !(len(unresolved) == 0 && len(reqCopy) == 0) {
 				fail("nil OCI spec: all requested names must be returned")
 			}
 		case len(want) > 0:
